@@ -37,6 +37,11 @@ CHECKS = {
    text="Engine C: calculateNextQuota over the full product of a numeric grid built from its branch boundaries (14 limits up to 2^31-1, recorded sums from 0 to 8x the limit, honest previous quotas, usage, instance and upstream request levels, client counts, global bursts): 1 <= quota <= limit, no over-commit from a sum within the limit (quota 1 aside), no growth above the limit, burst scaled and <= global burst. Engine B: every history to depth 5 (thorough 7) of reports at four load levels by 2-3 honest instances, limit lowered/restored, and instances forgotten by the cleanup passes and returning with their old quota, for max-in-flight and token-bucket schemas with limits 10 and 100; after every report the answered quota, the recorded sum (store and .state condition) and the no-growth rule are checked. Engine A: two/three overlapping loaded reports near the limit and reports racing a limit change, on the local and the API-backed store, all interleavings up to 2 preemptions (thorough 3).",
    ref="DESIGN.md §6 C07",
    note="Trusted: honest-instance model in h/c07, limiter rig (leader election callbacks delivered directly, fake clientsets), shim semantics; statement-level schedule points in UpdateRateLimitConditionStatus, UpstreamConditionHandler and calculateUpstreamCondition only."),
+ "C18": dict(cat="model_checking", engine="xstate+vsched",
+   technique="explicit-state BFS over join/report/acquire/silence/new-identity/cleanup histories on the real rateLimiter with virtual liveness + stateless model checking of the cleanup goroutine racing requests of live and dying instances",
+   text="Engine B: every history to depth 6 (k=2 instances; thorough 8) / 5 (k=3; thorough 6) of heartbeat, report (global-allocate schema), acquire (global-count schema), silence, restart with a new identity and the two periodic cleanup passes (singly and together): after both passes nothing of a silent instance is on record (no condition, no counted in-flight, running total == sum == in-flight of live instances) and no pass changes what is recorded for an instance with a fresh heartbeat. Engine A: cleanupTimeoutClient and its goroutine racing a report/acquire of a live instance and a last request of the dying one, every interleaving up to 2 (thorough 3) preemptions, followed by the next periodic passes.",
+   ref="DESIGN.md §6 C18",
+   note="Trusted: virtual clock (time.Now in ratelimter.go/clientcache.go -> vtime; a silent instance's heartbeat is set back one hour), limiter rig, shim semantics at sync-operation granularity, sync.Map.Range order pinned to sorted keys under the scheduler."),
 }
 def manifest():
     checks = []
